@@ -347,10 +347,11 @@ func lessName(a, b name) bool {
 
 type expectation struct {
 	exists, visible, may, must map[name]bool
+	mayMeas                    map[string]bool // measurements with a visible series that may still be in the queried shards (any condition)
 }
 
 func (w *world) expect(q *metaq) expectation {
-	e := expectation{map[name]bool{}, map[name]bool{}, map[name]bool{}, map[name]bool{}}
+	e := expectation{map[name]bool{}, map[name]bool{}, map[name]bool{}, map[name]bool{}, map[string]bool{}}
 	hide := map[int]bool{}
 	if q.Auth {
 		for _, s := range q.Hide {
@@ -361,6 +362,11 @@ func (w *world) expect(q *metaq) expectation {
 	simrt.MuLock(&w.mu, 0)
 	defer simrt.MuUnlock(&w.mu)
 	for s := 0; s < stor.NSeries; s++ {
+		if !hide[s] {
+			if _, maybe := w.liveMaybe(s, shards); maybe {
+				e.mayMeas[stor.SeriesMeas(s)] = true
+			}
+		}
 		if q.M != "" && stor.SeriesMeas(s) != q.M {
 			continue
 		}
@@ -524,6 +530,14 @@ func (w *world) runQuery(q *metaq, who string) bool {
 			sig := prefix + thing + "-listed-after-delete"
 			if prefix == "" {
 				sig = thing + "-listed-after-wipe"
+			}
+			if w.postCompaction && !e.mayMeas[n.M] {
+				// The index has been compacted and the whole measurement is gone from the queried shards, so its
+				// measurement, tag key and tag value tombstones were due (Index.DropMeasurementIfSeriesNotExist):
+				// this is not the listing of C42-F1..F4 any more. (Keys and values of deleted series of a
+				// measurement that lives on are never tombstoned, compaction or not: they keep the signature
+				// of C42-F1/F2.)
+				sig = prefix + thing + "-still-listed-after-index-compaction"
 			}
 			r.Violate("C42:dead-name-listed", sig, "%s: %s lists %s although every visible series (matching the condition, in the queried shards) that carries it was wiped by a completed full-range delete (or never written there)", who, q.text(), n)
 			return false
